@@ -1044,6 +1044,15 @@ class Interp:
                 results = self.models_mod.strategy_call(self, state, frame, bi, t, args, span, gen)
             else:
                 cb = self.facts.body(name)
+                if cb is None and is_local and args:
+                    # dynamic / unresolved trait dispatch on a value whose concrete local type is known abstractly
+                    recv = self.models_mod.deref(self, state, args[0])
+                    rty = recv[1] if recv[0] in ("fin", "adt") else None
+                    if rty is not None and "::" in gen:
+                        cand = "<%s as %s>::%s" % (rty, gen.rsplit("::", 1)[0], gen.rsplit("::", 1)[1])
+                        cb = self.facts.body(cand)
+                        if cb is not None:
+                            name = cand
                 if cb is not None and cb.kind != "Promoted":
                     if any(n == name for (n, _) in frame.stack) or name == body.name or frame.depth >= self.cfg.inline_depth:
                         results = self.opaque_call(state, frame, bi, t, args, name, span, "recursive")
